@@ -23,6 +23,9 @@ LIMIT = 400000  # search() refuses to return more answers than this (harness err
 DENSE_CAP = 3000  # a derived instance with more answers than this is not used (the board is too loosely clued)
 
 
+NODE_CAP = 150000  # ... nor one whose search tree is larger than this
+
+
 class TooMany(RuntimeError):
     pass
 
@@ -43,32 +46,27 @@ def around(h, w, py, px):
     return [cy * w + cx for cy in (py - 1, py) for cx in (px - 1, px) if 0 <= cy < h and 0 <= cx < w]
 
 
-def search(h, w, prob, limit=LIMIT):
+def search(h, w, prob, limit=LIMIT, max_nodes=0):
     """All colourings (True = white) obeying the rules for the clue table prob, as row-major tuples.
 
     Cells are coloured in row-major order (of the transposed board when the board is wider than high, so that rows are
-    short).  A clue is tested as soon as the last cell around its point is coloured.  At the end of every row the white
+    short).  After every cell the clues around it are tested (black cells so far <= clue <= black cells so far + cells
+    still to colour, i.e. equality once the last cell around the point is coloured).  At the end of every row the white
     components of the coloured part are computed: a component without a cell in that row can never grow again, so it
     must be the only white component and every later cell must be black.  Only partial colourings without any
     rule-obeying completion are cut, hence the enumeration is complete."""
     if w > h:
         tp = [[prob[y][x] for y in range(h + 1)] for x in range(w + 1)]
-        return [tuple(s[x * h + y] for y in range(h) for x in range(w)) for s in search(w, h, tp, limit)]
+        return [tuple(s[x * h + y] for y in range(h) for x in range(w)) for s in search(w, h, tp, limit, max_nodes)]
     n = h * w
-    col = [False] * n
+    col = [None] * n  # None = not coloured yet
     out = []
-    # points completed by colouring cell i
-    done = []
+    nodes = [0]
+    # clue points around cell i: (cells around the point, clue)
+    near = []
     for i in range(n):
         y, x = divmod(i, w)
-        pts = [(y, x)]
-        if x == w - 1:
-            pts.append((y, w))
-        if y == h - 1:
-            pts.append((h, x))
-            if x == w - 1:
-                pts.append((h, w))
-        done.append([(around(h, w, py, px), prob[py][px]) for py, px in pts if prob[py][px] >= 0])
+        near.append([(around(h, w, py, px), prob[py][px]) for py in (y, y + 1) for px in (x, x + 1) if prob[py][px] >= 0])
 
     def row_state(y):
         """(ok, sealed) after row y is complete."""
@@ -81,6 +79,14 @@ def search(h, w, prob, limit=LIMIT):
             return False, False
         return True, True
 
+    def clues_ok(i):
+        # black cells so far <= clue <= black cells so far + cells not coloured yet (equality once all are coloured)
+        for cells, c in near[i]:
+            black = sum(1 for k in cells if col[k] is False)
+            if black > c or black + sum(1 for k in cells if col[k] is None) < c:
+                return False
+        return True
+
     def rec(i, sealed):
         if i == n:
             if base.cells_connected([(k // w, k % w) for k in range(n) if col[k]]):
@@ -88,11 +94,14 @@ def search(h, w, prob, limit=LIMIT):
                     raise TooMany("creek oracle: more than %d answers on %dx%d" % (limit, h, w))
                 out.append(tuple(col))
             return
+        nodes[0] += 1
+        if max_nodes and nodes[0] > max_nodes:
+            raise TooMany("creek oracle: search budget exceeded on %dx%d" % (h, w))
         for v in (False, True):
             if v and sealed:
                 continue
             col[i] = v
-            if any(sum(1 for k in cells if not col[k]) != c for cells, c in done[i]):
+            if not clues_ok(i):
                 continue
             s2 = sealed
             if i % w == w - 1:
@@ -100,7 +109,7 @@ def search(h, w, prob, limit=LIMIT):
                 if not ok:
                     continue
             rec(i + 1, s2)
-        col[i] = False
+        col[i] = None
 
     rec(0, False)
     return out
@@ -204,7 +213,7 @@ def large_instances(h, w, level):
             if t in out:
                 continue
             try:
-                _SOLS[repr(t)] = search(h, w, t, DENSE_CAP)
+                _SOLS[repr(t)] = search(h, w, t, DENSE_CAP, NODE_CAP)
             except TooMany:
                 continue
             out.append(t)
